@@ -96,6 +96,9 @@ def run_case(case, ctx):
         # one template seven orders of magnitude larger than the others (what counts as 'no signal' is per template)
         spec.templates[int(rng.integers(0, spec.n_templates))] *= spec.templates.dtype.type(1e7)
         opts['one_huge_template'] = True
+    if sparse and case['seed'][-1] % 6 == 4 and spec.templates.shape[2] >= 2:
+        # a stored column that is constant but not zero (a baseline offset): it carries signal
+        spec.templates[int(rng.integers(0, spec.n_templates)), :, 1] = spec.templates.dtype.type(0.7)
     if case['seed'][-1] % 4 == 1:
         spec.notes['template_scaling'] = [2.5, 0.5][case['seed'][-1] % 8 == 1]      # every unwhitened waveform carries this factor, once
     if case['seed'][-1] % 3 == 1:
